@@ -11,6 +11,7 @@ Pipeline for a list of cases (name, [op lines]):
   4. field-by-field comparison.
 """
 import concurrent.futures as cf
+import re
 import os
 import subprocess
 import tempfile
@@ -124,10 +125,21 @@ def parse_transcript(text):
         elif l.startswith("obs "):
             cur["steps"][-1]["obs"] = parse_obs(l)
         elif l.startswith("orc "):
+            # `fail=` carries free text (Debug-formatted tables contain spaces): cut it out before the
+            # line is split into key=value tokens, otherwise every failure after the first space is lost
+            # (found with seeded m98: an O8 message in front hid the O14 failure of the same step)
+            body = l[4:]
+            failtext = ""
+            m = re.search(r" fail=(.*?)(?= zx=-?\d+ allocs=-?\d+ live_rcbox=-?\d+\s*$)", body)
+            if m:
+                failtext = m.group(1)
+                body = body[:m.start()] + body[m.end():]
             d = {}
-            for tok in l[4:].split(" "):
+            for tok in body.split(" "):
                 k, _, v = tok.partition("=")
                 d[k] = v
+            if m:
+                d["fail"] = failtext
             d["fails"] = [x for x in d.get("fail", "").split(";") if x]
             cur["steps"][-1]["orc"] = d
         elif l.startswith("stop "):
